@@ -98,10 +98,12 @@ Definition h_fill_buf (h : handle) : HM (list byte) := fun s =>
       let remaining := h_total h1 - off in
       let b0 := mkBuf (b_data (h_buf h1)) 0 (b_cap (h_buf h1)) (b_max (h_buf h1)) in
       let b1 := buf_grow_for_read b0 remaining in
-      match read_data (h_id h1) off (lenN (b_data b1)) s1 with
+      (* never more than [remaining] bytes: another handle may have grown the stream *)
+      let limit := N.min remaining (lenN (b_data b1)) in
+      match read_data (h_id h1) off limit s1 with
       | (s2, Ok got) =>
         let n := lenN got in
-        if lenN (b_data b1) <? n then (s2, (h1, Panic 703)) else
+        if limit <? n then (s2, (h1, Panic 703)) else
         let d := got ++ dropN n (b_data b1) in
         let b2 := mkBuf d 0 n (b_max b1) in
         let h2 := mkHandle (h_id h1) (h_total h1) b2 off (h_dirty h1) in
